@@ -616,3 +616,7 @@ func (w *World) DescribeLocked() string {
 	}
 	return b.String()
 }
+
+// CrashLockedExported crashes a server with the mutex held and returns its connections, which
+// the caller must close outside the mutex (see CloseLater).
+func (w *World) CrashLockedExported(host string) []net.Conn { return w.crashLocked(host) }
